@@ -718,7 +718,7 @@ func c15(r *core.Run) {
 		}
 	})
 
-	r.Check("D4/K3/reload-order", "reload: close(done) ≺ watchGroup.Wait ≺ new done channel and new group, all under c.lock; afterwards every key of c.listeners is loaded and then watched from the loaded revision", func(o *core.O) {
+	r.Check("D4/K3/reload-order", "reload: close(done) ≺ watchGroup.Wait ≺ new done channel and new group; done is closed and done/watchGroup are replaced under c.lock; afterwards every key of c.listeners is loaded and then watched from the loaded revision", func(o *core.O) {
 		if !o.Need(len(reloadFns) > 0, "a cluster method closing c.done (reload)") {
 			return
 		}
@@ -731,7 +731,7 @@ func c15(r *core.Run) {
 			}
 			isWait := func(in ssa.Instruction) bool {
 				c, ok := in.(*ssa.Call)
-				return ok && core.Short(core.CalleeName(c)) == "(*lib/threading.RoutineGroup).Wait" && core.IsFieldLoad(core.Args(c)[0], "cluster.watchGroup")
+				return ok && core.Short(core.CalleeName(c)) == "(*lib/threading.RoutineGroup).Wait" && core.IsFieldLoad(core.Forward(core.Args(c)[0]), "cluster.watchGroup")
 			}
 			newDone, newGroup := core.IsStoreToField("cluster.done"), core.IsStoreToField("cluster.watchGroup")
 			isRun := func(in ssa.Instruction) bool {
@@ -758,6 +758,9 @@ func c15(r *core.Run) {
 				o.Fail(p.InstrPos(w), "done / the watch group is replaced after watchers were started on them")
 			}
 			for _, in := range sites {
+				if isWait(in) {
+					continue // the join must NOT hold the lock the watchers take: D4/K4/no-join-under-watcher-lock
+				}
 				held := false
 				for k := range la.Held(in) {
 					if strings.HasSuffix(k, ".lock") {
@@ -795,6 +798,122 @@ func c15(r *core.Run) {
 				if !keyed {
 					o.Fail(p.InstrPos(run), "reload does not iterate over the keys of c.listeners")
 				}
+			}
+		}
+	})
+
+	r.Check("D4/K4/no-join-under-watcher-lock", "no function of lib/discov/internal waits for the watcher goroutines (RoutineGroup.Wait on cluster.watchGroup) on a path on which it holds a mutex that those goroutines lock (load → handleChanges and watch → handleWatchEvents lock cluster.lock): the watcher blocks on the mutex, the join on the watcher", func(o *core.O) {
+		isWatchGroup := func(v ssa.Value) bool { return core.IsFieldLoad(core.Forward(v), "cluster.watchGroup") }
+		mutexOf := func(in ssa.Instruction, method string) string {
+			c := core.AsCall(in)
+			if c == nil {
+				return ""
+			}
+			n := core.CalleeName(c)
+			if n != "(*sync.Mutex)."+method && n != "(*sync.RWMutex)."+method {
+				return ""
+			}
+			return core.FieldAddrName(core.Args(c)[0])
+		}
+		// the mutexes the watcher goroutines take: Lock calls reachable (static calls inside the package, depth 5)
+		// from the functions run on cluster.watchGroup
+		taken := map[string]bool{}
+		seen := map[*ssa.Function]bool{}
+		var visit func(f *ssa.Function, d int)
+		visit = func(f *ssa.Function, d int) {
+			if f == nil || seen[f] || d > 5 || f.Blocks == nil {
+				return
+			}
+			seen[f] = true
+			for _, b := range f.Blocks {
+				for _, in := range b.Instrs {
+					if m := mutexOf(in, "Lock"); m != "" {
+						taken[m] = true
+					}
+					if c := core.AsCall(in); c != nil {
+						if callee := c.Common().StaticCallee(); callee != nil && callee.Pkg == f.Pkg {
+							visit(callee, d+1)
+						}
+					}
+					if mc, ok := in.(*ssa.MakeClosure); ok {
+						visit(mc.Fn.(*ssa.Function), d+1)
+					}
+				}
+			}
+		}
+		nRun := 0
+		for _, f := range p.PkgFuncs(discovInt) {
+			for _, c := range core.Calls(f, core.CallTo("(*lib/threading.RoutineGroup).Run")) {
+				if a := core.Args(c); len(a) == 2 && isWatchGroup(a[0]) {
+					nRun++
+					if body, _ := gxClosureOf(a[1]); body != nil {
+						visit(body, 0)
+					}
+				}
+			}
+		}
+		if !o.Need(nRun > 0 && len(taken) > 0, "functions run on cluster.watchGroup that lock a mutex") {
+			return
+		}
+		n := 0
+		for _, f := range p.PkgFuncs(discovInt) {
+			for _, w := range core.Calls(f, core.CallTo("(*lib/threading.RoutineGroup).Wait")) {
+				if !isWatchGroup(core.Args(w)[0]) {
+					continue
+				}
+				n++
+				r.Fn(core.FuncName(f))
+				for m := range taken {
+					var locks []core.At
+					for _, in := range core.Instrs(f, func(in ssa.Instruction) bool { _, plain := in.(*ssa.Call); return plain && mutexOf(in, "Lock") == m }) {
+						locks = append(locks, core.After(in))
+					}
+					unlock := func(in ssa.Instruction) bool { _, plain := in.(*ssa.Call); return plain && mutexOf(in, "Unlock") == m }
+					if hit, ok := core.Reach(core.Q{From: locks, Target: core.Is(w), Blocked: unlock}); ok {
+						o.Fail(p.InstrPos(hit), "%s waits for the watcher goroutines while it holds %s, which they lock themselves (load → handleChanges, watch → handleWatchEvents): a reconnect during a load or an event dead-locks the cluster for good", core.FuncName(f), m)
+					}
+				}
+			}
+		}
+		o.Site(n, discovInt)
+	})
+
+	r.Check("D4/K1/reloads-serialised", "from closing done to installing the new done channel and watch group, reload holds one mutex throughout (two overlapping reloads would close the closed channel, or start two generations of watchers)", func(o *core.O) {
+		if !o.Need(len(reloadFns) > 0, "a cluster method closing c.done (reload)") {
+			return
+		}
+		la := core.NewLockAnalysis(p, discovInt)
+		for _, f := range reloadFns {
+			r.Fn(core.FuncName(f))
+			sites := core.Instrs(f, func(in ssa.Instruction) bool {
+				if c, ok := in.(*ssa.Call); ok {
+					n := core.CalleeName(c)
+					if n == "builtin:close" && core.IsFieldLoad(c.Call.Args[0], "cluster.done") {
+						return true
+					}
+					return core.Short(n) == "(*lib/threading.RoutineGroup).Wait" && core.IsFieldLoad(core.Forward(core.Args(c)[0]), "cluster.watchGroup")
+				}
+				return core.IsStoreToField("cluster.done")(in) || core.IsStoreToField("cluster.watchGroup")(in)
+			})
+			o.Site(len(sites), core.FuncName(f))
+			var common map[string]bool
+			for _, in := range sites {
+				h := map[string]bool{}
+				for k := range la.Held(in) {
+					h[k] = true
+				}
+				if common == nil {
+					common = h
+					continue
+				}
+				for k := range common {
+					if !h[k] {
+						delete(common, k)
+					}
+				}
+			}
+			if len(sites) > 0 && len(common) == 0 {
+				o.Fail(p.Pos(f.Pos()), "%s holds no single mutex from close(done) to the new done channel / watch group: overlapping reloads close a closed channel (panic) or start the watchers twice", core.FuncName(f))
 			}
 		}
 	})
